@@ -51,6 +51,7 @@ def dispatch (st : DriverState) (line : String) : DriverState × String :=
   | "C19B" :: rest => let (s, o) := Drive.C19.step st.c19b rest; ({ st with c19b := s }, o)
   | "C20" :: rest => (st, Drive.C20.step rest)
   | "ENC" :: rest => (st, Drive.Enc.step st.c17 rest)
+  | "LAY" :: rest => (st, Drive.Enc.layoutStep st.c17 rest)
   | "Q" :: rest => (st, Drive.C17.stepQ rest)
   | _ => (st, "bad-op")
 
